@@ -732,6 +732,14 @@ fn generate_oracle(sink: &mut Sink, rng: &mut Rng, n: u64) {
             sink.emit("o.c32.cap", &[show_items(&items), show_aliases(&aliases)]);
         }
     }
+    // numeric filters at and beyond the i64 range (a whole float is an integer only if it survives f64 -> i64 -> f64)
+    for sample in ["99999999999999999999", "9223372036854775808", "9223372036854775807", "-9223372036854775809", "9007199254740993", "18446744073709551616", "1.0", "-0"] {
+        for filter in ["number", "numberExt", "integer", "integerExt", "scale(1)", "scale(2)"] {
+            let items = vec![Item::Ph { name: "q".to_string(), dest: "x".to_string(), filter: filter.to_string(), sample: sample.to_string() }];
+            let aliases = vec![("q".to_string(), "[+-]?[0-9]+(?:\\.[0-9]+)?".to_string())];
+            sink.emit("o.c32.cap", &[show_items(&items), show_aliases(&aliases)]);
+        }
+    }
     for i in 0..n {
         match i % 4 {
             0 => {
